@@ -145,7 +145,7 @@ def _labs2(tier, depth):
 
 def prop_vals(t):
     if t == 'String':
-        return ['', 'a', 'é日本', "'/ x", 'y' * 300, 'a\x00b']
+        return ['', 'a', 'é日本', "'/ x", 'y' * 300, 'a\x00b', '\ufeffbom', '\ufeff']
     pool = G.POOLS[t]
     return pool[:6]
 
